@@ -26,22 +26,65 @@ func (c *Ctx) funcsCalling(full string) map[*ssa.Function][]ssa.CallInstruction 
 
 // signFunc: the unique module function that produces signatures.
 func (c *Ctx) signFunc() (*ssa.Function, string) {
-	ec := c.funcsCalling("crypto/ecdsa.SignASN1")
-	rsa := c.funcsCalling("crypto/rsa.SignPKCS1v15")
-	if len(ec) != 1 || len(rsa) != 1 {
-		return nil, sprintf("expected exactly one function calling ecdsa.SignASN1 and one calling rsa.SignPKCS1v15, found %d and %d", len(ec), len(rsa))
+	// the function that turns a context into a signed certificate: it takes the signature algorithm and stores the
+	// signature value into a Certificate. The signature primitives may be called by it or by a helper it calls.
+	var out []*ssa.Function
+	for _, fn := range c.Funcs {
+		if fn.Parent() != nil {
+			continue
+		}
+		hasAlg := false
+		for _, p := range fn.Params {
+			if c.isModNamed("SignatureAlgorithm")(p.Type()) {
+				hasAlg = true
+			}
+		}
+		if !hasAlg {
+			continue
+		}
+		for _, fs := range storesIntoType(c, fn, "cert.Certificate") {
+			if fs.field == "SignatureValue" {
+				out = append(out, fn)
+				break
+			}
+		}
 	}
-	var f1, f2 *ssa.Function
-	for f := range ec {
-		f1 = f
+	if len(out) != 1 {
+		return nil, sprintf("expected exactly one function with a SignatureAlgorithm parameter that stores Certificate.SignatureValue, found %d", len(out))
 	}
-	for f := range rsa {
-		f2 = f
+	fn := out[0]
+	// both primitives are reached from it
+	reach := c.Graph().Reach(fn)
+	for _, prim := range []string{"crypto/ecdsa.SignASN1", "crypto/rsa.SignPKCS1v15"} {
+		ok := false
+		for f := range c.funcsCalling(prim) {
+			if _, r := reach[f]; r {
+				ok = true
+			}
+		}
+		if !ok {
+			return nil, c.FuncKey(fn) + " does not reach " + prim
+		}
 	}
-	if f1 != f2 {
-		return nil, "ECDSA and RSA signing live in different functions (" + c.FuncKey(f1) + ", " + c.FuncKey(f2) + ")"
+	return fn, ""
+}
+
+// signPrimitiveCalls: the calls of the two signature primitives reachable from the signing function.
+func (c *Ctx) signPrimitiveCalls() []ssa.CallInstruction {
+	fn, _ := c.signFunc()
+	if fn == nil {
+		return nil
 	}
-	return f1, ""
+	reach := c.Graph().Reach(fn)
+	var out []ssa.CallInstruction
+	for _, prim := range []string{"crypto/ecdsa.SignASN1", "crypto/rsa.SignPKCS1v15"} {
+		for f, cis := range c.funcsCalling(prim) {
+			if _, r := reach[f]; r {
+				out = append(out, cis...)
+			}
+		}
+	}
+	return out
 }
 
 // keyTypeRoles maps the values of the module's key-kind enumeration to "ec"/"rsa":
@@ -53,7 +96,7 @@ func (c *Ctx) keyTypeRoles() (map[int64]string, *types.Named, string) {
 	}
 	out := map[int64]string{}
 	var typ *types.Named
-	for _, ci := range callsIn(fn) {
+	for _, ci := range c.signPrimitiveCalls() {
 		role := ""
 		switch calleeFullName(ci) {
 		case "crypto/ecdsa.SignASN1":
@@ -86,7 +129,7 @@ func (c *Ctx) keyTypeRoles() (map[int64]string, *types.Named, string) {
 			break
 		}
 		if !found {
-			return nil, nil, "signing call to " + calleeFullName(ci) + " in " + c.FuncKey(fn) + " is not guarded by an equality test of a key-kind constant"
+			return nil, nil, "signing call to " + calleeFullName(ci) + " in " + c.FuncKey(ci.Parent()) + " is not guarded by an equality test of a key-kind constant"
 		}
 	}
 	if len(out) != 2 {
